@@ -413,6 +413,11 @@ def r03d(ctx):
     # reductions inside the predicate must be refused when allow_reduction is False
     red = [p for p in flow.returns(fn2) if isinstance(p.stmt.value, ast.Constant) and p.stmt.value.value is False]
     good = any(any((not pol) and unparse(t) == "allow_reduction" for t, pol in flow.facts(p)) for p in red)
+    # ... and so must every node that is not computed row by row (Elemwise) from the lower filter: quantiles, cumulative /
+    # shifted / rolling values change when the rows below them change
+    node_var = one_local(fn2, "V_stack.pop()", "the node popped from the work list in _check_dependents_are_predicates")
+    rowwise = any(any((not pol) and unparse(t) == "allow_reduction" for t, pol in flow.facts(p)) and any((not pol) and pmatch(f"isinstance({node_var}, Elemwise)", t) is not None for t, pol in flow.facts(p)) for p in red)
+    (ctx.ok if rowwise else ctx.bad)("_expr._check_dependents_are_predicates:row-wise-only", mod2.loc(fn2), "non-Elemwise nodes between the two filters refuse the merge" if rowwise else "when two stacked filters are merged, only tree / shuffle reductions in the upper predicate are refused: a quantile, cumulative, shifted or rolling value of the filtered frame is re-computed over the unfiltered frame")
     (ctx.ok if good else ctx.bad)("_expr._check_dependents_are_predicates:reductions", mod2.loc(fn2), "reductions refused when allow_reduction=False" if good else "reduction nodes in the predicate are no longer refused when allow_reduction=False (squashing filters would change the reduction's input)")
 
 
